@@ -698,6 +698,17 @@ class Evaluator:
                 ctx.assume(z3.ForAll([k], z3.Implies(z3.And(0 <= k, k < n),
                                                      z3.SubString(r, k, 1) == z3.SubString(base.t, n - 1 - k, 1))))
                 return V(STR, r)
+            if isinstance(base.ty, TList) and sl.lower is None and sl.upper is None and isinstance(sl.step, ast.UnaryOp) \
+                    and isinstance(sl.step.op, ast.USub) and isinstance(sl.step.operand, ast.Constant) and sl.step.operand.value == 1:
+                # L[::-1]: a new list of the same length with R[k] == L[n-1-k]
+                lt = base.ty
+                r = z3.Function('rev_' + lt.name.replace('[', '_').replace(']', '').replace(',', '_'), lt.sort(), lt.sort())(base.t)
+                k = fresh('k', z3.IntSort())
+                n = list_len(base)
+                ctx.assume(lt.n(r) == n)
+                ctx.assume(z3.ForAll([k], z3.Implies(z3.And(0 <= k, k < n),
+                                                     z3.Select(lt.arr(r), k) == z3.Select(lt.arr(base.t), n - 1 - k))))
+                return V(lt, r)
             raise OutOfSubset('slice step')
         n = z3.Length(base.t) if base.ty == STR else list_len(base)
         lo = z3.IntVal(0) if sl.lower is None else clamp_index(to_int(self.unwrap_opt(self.ev(sl.lower, ctx), ctx)), n)
